@@ -121,11 +121,11 @@ def run(tier):
                 check_implblock(rep, crate, exp, cfg)
         # no generated item may mention a decoy
         decoy = re.compile(r"crate::h_\w+(::\w+)*::(Impl|Box|Pin|Unimock|Future|Send|Sync|Sized2|AsRef|Borrow|Any)\b")
+        # (traits the macro GENERATES under a user-chosen name — even one like `Sync` — are not decoys: another
+        #  invocation may legitimately name them in a dependency bound)
+        generated_traits = set(d["path"] for e in crate.expansions for d in e.defs if d["kind"] == "Trait")
         for exp in crate.expansions:
-            own = set()
-            for d in exp.defs:
-                if d["kind"] == "Trait":
-                    own.add(d["path"])
+            own = set(generated_traits)
             for d in exp.defs:
                 if d["kind"] not in ("Impl", "Trait", "AssocFn"):
                     continue
